@@ -44,6 +44,11 @@ func serve[I any, O any](run func(I) O) {
 	if len(os.Args) > 1 {
 		from, _ = strconv.Atoi(os.Args[1])
 	}
+	if len(os.Args) > 2 { // only jobs[from:to]
+		if to, err := strconv.Atoi(os.Args[2]); err == nil && to < len(ins) {
+			ins = ins[:to]
+		}
+	}
 	limit := 10 * time.Second
 	if v := os.Getenv("VERIF_JOB_TIMEOUT_MS"); v != "" {
 		ms, _ := strconv.Atoi(v)
@@ -147,6 +152,43 @@ func runDriver(c *vf.Check, dir string, bin string, env []string, jobs any, n in
 		}
 		res[last+1] = jobResult{Status: "crash", Crash: tail}
 		from = last + 2
+	}
+	// a job that timed out is run once more, alone and with six times the limit, before the timeout is
+	// believed: a machine under load must not turn into a verdict, a genuine hang times out again
+	retried := 0
+	for i := 0; i < n && retried < 8; i++ {
+		if res[i].Status != "timeout" {
+			continue
+		}
+		retried++
+		limit := 60000
+		for _, e := range env {
+			if strings.HasPrefix(e, "VERIF_JOB_TIMEOUT_MS=") {
+				fmt.Sscanf(strings.TrimPrefix(e, "VERIF_JOB_TIMEOUT_MS="), "%d", &limit)
+				limit *= 6
+			}
+		}
+		cmd := exec.Command(bin, fmt.Sprint(i), fmt.Sprint(i+1))
+		cmd.Dir = dir
+		cmd.Env = c.S.GoEnv(append(append([]string{}, env...), fmt.Sprintf("VERIF_JOB_TIMEOUT_MS=%d", limit))...)
+		cmd.Stdin = strings.NewReader(string(in))
+		out, _ := cmd.Output()
+		again := true
+		for _, ln := range strings.Split(string(out), "\n") {
+			var e struct {
+				I      int             `json:"i"`
+				Status string          `json:"status"`
+				Out    json.RawMessage `json:"out"`
+			}
+			if json.Unmarshal([]byte(ln), &e) == nil && e.I == i && e.Status == "ok" {
+				res[i] = jobResult{Status: "ok", Out: append(json.RawMessage{}, e.Out...)}
+				fmt.Printf("job %d: timed out under load, completed when run alone\n", i)
+				again = false
+			}
+		}
+		if again {
+			break // a genuine hang: the remaining timeouts are believed as well
+		}
 	}
 	return res
 }
